@@ -828,10 +828,18 @@ class Lexer:
             self.pos += len(value)
 
             if kind == "CONTENT":
+                start = self.start
+                if self.markup and isinstance(self.markup[-1], ContentToken):
+                    # Text continuing after a `{#` that did not start a comment. It
+                    # is all one piece of text, with no markup to trim towards.
+                    previous = self.markup.pop()
+                    start = previous.start
+                    value = previous.text + value
+
                 self.markup.append(
                     ContentToken(
                         type_=TokenType.CONTENT,
-                        start=self.start,
+                        start=start,
                         stop=self.pos,
                         text=value,
                         source=self.source,
